@@ -168,7 +168,8 @@ ClaimEvents(s) ==
               \cup {Claim("u1", 1, o, W1, v, "T2", 1, h, m) : o \in 1..3, v \in {0, 1}, h \in {"h1", "h2"}, m \in muts}
               \cup {Claim("u1", 1, o, w, 0, t, pos, "h1", "none") : o \in 1..3, w \in WVariants, t \in {"T1", "T2", "T3"}, pos \in 1..3}
               \cup {Claim("u1", 1, o, W1, 0, t, pos, "h1", m) : o \in 1..3, t \in {"T1", "T2", "T3"}, pos \in 1..3, m \in muts}
-              \cup {[always |-> TRUE] @@ Claim("u1", 1, o, [W1 EXCEPT !.amt = 5], 0, "T2", 1, "h1", "none") : o \in 1..3})
+              \cup {[always |-> TRUE] @@ Claim("u1", 1, o, [W1 EXCEPT !.amt = 5], 0, "T2", 1, "h1", "none") : o \in 1..3}
+              \cup {[Claim("u1", 1, o, W1, 0, "T2", 1, "h1", "none") EXCEPT !.bad = k] : o \in 1..3, k \in {"version", "hash33", "hash31", "root33", "proof33"}})
         ELSE \* one dimension at a time around the valid claim (W1, version 0, tree T2, position 1, block hash h1)
              {Claim("u1", 1, o, w, 0, "T2", 1, "h1", "none") : o \in 1..3, w \in WVariants}
              \cup {[always |-> TRUE] @@ Claim("u1", 1, o, [W1 EXCEPT !.amt = 5], 0, "T2", 1, "h1", "none") : o \in 1..3}   \* W1's amount + 2^64
@@ -176,7 +177,9 @@ ClaimEvents(s) ==
              \cup {Claim("u1", 1, o, W1, 0, "T2", 2, "h1", "none") : o \in 1..3}
              \cup {Claim("u1", 1, o, W1, 0, "T3", 2, "h2", "none") : o \in 1..3}
              \cup {Claim("u1", 1, o, W1, 0, "T2", 1, "h2", "none") : o \in 1..3}
-             \cup {Claim("u1", 1, o, W1, 0, "T2", 1, "h1", m) : o \in 1..3, m \in muts})
+             \cup {Claim("u1", 1, o, W1, 0, "T2", 1, "h1", m) : o \in 1..3, m \in muts}
+             \* byte fields of a wrong length (the longer ones keep the right bytes as a prefix): version, block hash, storage root, a proof item
+             \cup {[Claim("u1", 1, o, W1, 0, "T2", 1, "h1", "none") EXCEPT !.bad = k] : o \in 1..3, k \in {"version", "hash33", "hash31", "root33", "proof33"}})
 
 AuthSigners == {"gov", "p1", "p2", "c1", "c2", "x"}
 AuthEvents(s) ==
